@@ -253,3 +253,9 @@ package dispatcher
 //@   loop 1 invariant [one_nack_per_untouched_lease] rangeindex < len(items) && storeMutations == old(storeMutations) + rangeindex + 1
 //@   calls queue.Store.Nack requires [C05:every_untouched_lease_is_nacked_with_the_given_delay] callee_leaseID == items[rangeindex].LeaseID && callee_delay == delay
 //@   ensures [C05:every_untouched_lease_is_handed_back_exactly_once] storeMutations == old(storeMutations) + len(items)
+
+// ---- C06: a message's push target is looked up by the target URL exactly as the envelope carries it ----
+// (a target that cannot be found is nacked again and again without an attempt being recorded: retried forever)
+//@ func targetConfigByURL
+//@   loop 1 invariant [every_target_so_far_is_keyed_by_its_url_as_written] byURL != nil && rangeindex < len(targets) && forall k int :: 0 <= k && k <= rangeindex ==> targets[k].URL in byURL && byURL[targets[k].URL].URL == targets[k].URL
+//@   ensures [C06:every_configured_target_is_found_under_its_url_as_written] result != nil && forall k int :: 0 <= k && k < len(targets) ==> targets[k].URL in result && result[targets[k].URL].URL == targets[k].URL
